@@ -18,7 +18,7 @@ claimed = {
    technique="deterministic simulation: single-fault sweep over every cluster call/wait/hook of an operation; ledger + object-store oracle"),
  "C06": dict(level="exploration", design="§6 C06",
    text="Histories (sometimes left pending or failed by a crash) followed by install/upgrade/rollback/uninstall in every dry-run spelling and helm-template shape with random flags, hooks, crds/, CreateNamespace, post-renderer; the request log of the simulated server must contain no POST/PUT/PATCH/DELETE from the operation, the storage seam no write, history and object store must be unchanged, and client-only rendering must send nothing at all.",
-   note="helm template is replicated at the action level (DryRun+ClientOnly+Replace as pkg/cmd/template.go sets them); pkg/cmd flag parsing is not run.",
+   note="Operations are driven both at the action level and, in a fifth of the dry-run steps, through the real command line layer (pkg/cmd: helm template / install / upgrade / uninstall / rollback with their dry-run spellings, built on the simulated process's Configuration through the guarded hook VerifNewRootCmd), so flag parsing and the wiring in pkg/cmd/template.go and install.go are part of what is judged. Post-renderer binaries are not run through the CLI.",
    technique="deterministic simulation: request log of the simulated API server + recording storage seam"),
  "C07": dict(level="exploration", design="§6 C07",
    text="Objects are planted at identities the next install/upgrade will create, with eight flavours of ownership metadata, with and without take-ownership; the oracle demands refusal exactly when a foreign object exists, no mutating request and unchanged history/cluster on refusal, ownership stamps on every manifest object after success, and that every DELETE of the whole run names an identity of the release's manifests, hooks or records.",
@@ -30,7 +30,7 @@ claimed = {
    technique="deterministic simulation: seeded interleaving of the concurrent per-kind create batch; request-order oracle + partition oracle"),
  "C12": dict(level="fault_enumeration", design="§6 C12",
    text="Charts with many hooks (all events, negative/equal weights, Job/Pod/ConfigMap, all delete-policy subsets) across install/upgrade/rollback/uninstall histories with left-over hook objects; every single hook is made to fail in turn (sweep) and at random; the ordered request log and waiter log are checked for weight/name order, one-at-a-time execution, before-hook-creation deletes, policy-driven deletion, the pre-hook gate on release resources, post-hook failure failing the operation, and disabled hooks.",
-   note="Hook outcomes are scripted through the waiter stub; atomic operations are excluded (their internal rollback/uninstall fire further events). Expected hooks come from the generator's own chart description, not from Helm's parser.",
+   note="Hook outcomes are scripted through the waiter stub; atomic operations are judged only for the no-hooks clause (their internal rollback/uninstall fire further events). Expected hooks come from the generator's own chart description, not from Helm's parser.",
    technique="deterministic simulation: scripted hook outcomes, every hook failing in turn; ordered request-log oracle"),
  "C09": dict(level="exploration", design="§6 C09, §3.3",
    text="Groups of two (uniform and PCT schedules) and three (PCT, bounded preemptions) concurrent install / install --replace / upgrade (with and without history limit) on one release, from an empty, deployed or uninstalled history, as separate processes on Secret/ConfigMap storage and sharing one memory driver; the scheduler interleaves them at every storage and cluster call. The oracle rebuilds the timeline of record writes and checks one creator per revision, losers failing with the documented errors without touching any release resource, no creation while another operation's revision is pending, and ledger well-formedness at quiescence. A second population runs the same groups in a -race build in co-release mode (answers computed serially, goroutines released together so that no happens-before edge hides Helm's own races).",
@@ -85,7 +85,7 @@ for pid in sorted(claimed):
 m = dict(version=1,
   setup_cmd="./check build",
   hooks=dict(guard="verif", enable="go1.26.8 test -c -tags verif (GOTOOLCHAIN=local GOFLAGS=-mod=mod GOPROXY=off GOSUMDB=off) in /verif/sim, replace helm.sh/helm/v4 => /repo",
-             baseline_off_cmd=BASE_OFF, source_commits=["b77169a"], add_only=True),
+             baseline_off_cmd=BASE_OFF, source_commits=["b77169a", "60b5a28"], add_only=True),
   engines=[
     dict(name="clustersim", path="/verif/sim", serves_properties=sorted(k for k,v in claimed.items() if v.get("engine","clustersim")=="clustersim"), kind_free_text="deterministic simulation (testing/synctest bubble, seeded scheduler, simulated Kubernetes API server, fault injection) driving the real pkg/action, pkg/kube, pkg/storage code"),
     dict(name="storesim", path="/verif/sim/oracle_c10.go", serves_properties=["C10"], kind_free_text="model-based comparison of the three storage drivers on the simulated API server"),
